@@ -24,13 +24,17 @@ import (
 )
 
 type Case struct {
-	Op    string  `json:"op"` // wf | mal | trunc
+	Op    string  `json:"op"` // wf | mal | trunc | big
 	V     *resp.V `json:"v,omitempty"`
 	Rest  []byte  `json:"rest,omitempty"`
 	Input []byte  `json:"input,omitempty"`
 	Buf   int     `json:"buf"`
 	Sizes [][]int `json:"sizes,omitempty"` // chunkings to try
 	Mut   string  `json:"mut,omitempty"`
+	// big: Input is the header, followed by Count copies of Pat
+	Pat   []byte `json:"pat,omitempty"`
+	Count int    `json:"count,omitempty"`
+	NoCoq bool   `json:"nocoq,omitempty"`
 }
 
 var bufSizes = []int{32, 32, 64, 4096}
@@ -157,12 +161,43 @@ func mutate(r *gen.Rand, enc []byte) ([]byte, string) {
 	}
 }
 
-var boundaries = resp.Boundaries()
+var deterministic = detCases()
+
+// detCases: the seed-independent part of every run: the length-boundary sweep and, interleaved so that the
+// expensive model evaluations spread over the shards, the "long real prefix under a lying length" family.
+func detCases() []Case {
+	thorough := os.Getenv("VERIF_TIER") == "thorough"
+	var withCoq, rest []Case
+	bigs := resp.Bigs(thorough)
+	if os.Getenv("VERIF_RESP_MIX") != "malformed" {
+		bigs = nil // the long lying-length family belongs to C13's run; C12 shares only the boundary sweep
+	}
+	for k, b := range bigs {
+		c := Case{Op: "big", Input: b.Prefix, Pat: b.Pat, Count: b.Count, Mut: "big:" + b.Name, Buf: []int{4096, 64, 32}[k%3]}
+		c.NoCoq = !thorough && !b.Model // every case gets the direct oracle; the model is evaluated on a subset in the quick tier
+		if c.NoCoq {
+			rest = append(rest, c)
+		} else {
+			withCoq = append(withCoq, c)
+		}
+	}
+	var out []Case
+	bs := resp.Boundaries()
+	step := len(bs)/(len(withCoq)+1) + 1
+	for i, b := range bs {
+		out = append(out, Case{Op: "mal", Input: b.Input, Mut: "boundary:" + b.Name, Buf: []int{32, 64, 4096}[i%3], Sizes: [][]int{nil, {1}, {3, 7}}})
+		if (i+1)%step == 0 && len(withCoq) > 0 {
+			out = append(out, withCoq[0])
+			withCoq = withCoq[1:]
+		}
+	}
+	out = append(out, withCoq...)
+	return append(out, rest...)
+}
 
 func genCase(r *gen.Rand, i int) any {
-	if i < len(boundaries) { // deterministic: the same on every run and for every seed
-		b := boundaries[i]
-		return Case{Op: "mal", Input: b.Input, Mut: "boundary:" + b.Name, Buf: []int{32, 64, 4096}[i%3], Sizes: [][]int{nil, {1}, {3, 7}}}
+	if i < len(deterministic) { // the same on every run and for every seed
+		return deterministic[i]
 	}
 	buf := gen.Pick(r, bufSizes)
 	c := Case{Buf: buf, Sizes: genChunkings(r)}
@@ -277,6 +312,29 @@ func run(ci any) (res obs.Result) {
 		res.Sig = fmt.Sprint("trunc", c.Buf, hash(enc))
 		res.Nontrivial = len(enc) > 3
 		res.Obs = fmt.Sprintf("%d prefixes", len(enc))
+	case "big":
+		res.Class = "malformed"
+		res.Kind = "big-sandboxed"
+		total := len(c.Input) + len(c.Pat)*c.Count
+		o := resp.DecodeSandboxedBig(c.Input, c.Pat, c.Count, c.Buf, nil)
+		switch {
+		case o.Status == "panic":
+			res.Oracle = fmt.Sprintf("panic on %q followed by %d x %q: %s", trunc(c.Input), c.Count, c.Pat, o.ErrText)
+			res.Class = "panic"
+		case o.Status == "fatal":
+			res.Oracle = fmt.Sprintf("the decoder process died (out of memory) on %q followed by %d x %q: %s", trunc(c.Input), c.Count, c.Pat, o.ErrText)
+			res.Class = "alloc"
+		case o.Alloc > allocLimit(total):
+			res.Oracle = fmt.Sprintf("allocated %d bytes for the %d-byte input %q followed by %d x %q", o.Alloc, total, trunc(c.Input), c.Count, c.Pat)
+			res.Class = "alloc"
+		}
+		if o.Status != "fatal" && !c.NoCoq {
+			res.Coq = obs.App("CBig", obs.N(uint64(c.Buf)), resp.HB(c.Input), resp.HB(c.Pat), obs.N(uint64(c.Count)), outcomeCoq(o),
+				obs.N(uint64(o.Consumed)), obs.N(o.Alloc))
+		}
+		res.Sig = fmt.Sprint("big", c.Buf, c.Mut)
+		res.Nontrivial = true
+		res.Obs = fmt.Sprintf("%s: %s err=%d consumed=%d alloc=%d (input %d bytes)", c.Mut, o.Status, o.Err, o.Consumed, o.Alloc, total)
 	case "mal":
 		res.Class = "malformed"
 		var first resp.Outcome
